@@ -21,8 +21,16 @@ open Spec
 
 /-! ## the configuration the theorems are proved for -/
 
-/-- the expected translator output (for either value of the host-dependent HAS_PROC_SMAPS_ROLLUP) -/
-def goodCfg (rollup : Bool) : Cfg :=
+/-- the two facts the theorems are proved for BOTH values of: HAS_PROC_SMAPS_ROLLUP (host dependent) and whether
+    is_running() carries the repair of finding C03-denied-probe-reads-as-reuse (`Cfg.probeLenient`; false for the
+    source as it is, true once fixes/C03-denied-probe.diff has landed) -/
+structure Host where
+  rollup : Bool
+  lenient : Bool
+  deriving DecidableEq, Repr
+
+/-- the expected translator output -/
+def goodCfg (h : Host) : Cfg :=
   { wrapClauses := [("PermissionError", ["raise AccessDenied"]),
                     ("ProcessLookupError", ["_raise_if_zombie", "raise NoSuchProcess"]),
                     ("FileNotFoundError", ["_raise_if_zombie", "if not exists(stat): raise NoSuchProcess", "raise"])]
@@ -53,13 +61,16 @@ def goodCfg (rollup : Bool) : Cfg :=
                 "num_threads", "open_files", "ppid", "rlimit", "status", "terminal", "threads", "uids", "wait"]
     memoized := ["_parse_stat_file", "_read_smaps_file", "_read_status_file"]
     feMemoized := ["cpu_times", "memory_info", "ppid", "uids"]
-    hasRollup := rollup
+    hasRollup := h.rollup
     goneGuard := true
-    childrenPopSelf := true }
+    childrenPopSelf := true
+    probeLenient := h.lenient
+    asDictSkipCatch := ["NotImplementedError"]
+    asDictSkipRule := "if attrs: raise; continue" }
 
 /-- the source before the repair of lead L3: ppid_map() tolerates only ENOENT / ESRCH -/
-def preFixCfg (rollup : Bool) : Cfg :=
-  { goodCfg rollup with ppidMapCatch := ["FileNotFoundError", "ProcessLookupError"] }
+def preFixCfg (h : Host) : Cfg :=
+  { goodCfg h with ppidMapCatch := ["FileNotFoundError", "ProcessLookupError"] }
 
 /-! ## state of a process at an access index -/
 
@@ -506,7 +517,7 @@ theorem denyOnce_after {c : Ctx} (ha : Adm c) {i : Nat} (h : c.deny i ≠ none) 
 
 /-- `_is_zombie` never raises; started where a FileNotFoundError is harmless (`FnfSafe`) it
     answers True or leaves the process gone -/
-theorem isZombie_run (r : Bool) (p : Nat) (c : Ctx) (s : St) (ha : Adm c) :
+theorem isZombie_run (r : Host) (p : Nat) (c : Ctx) (s : St) (ha : Adm c) :
     ∃ b s', isZombie (goodCfg r) p c s = (.ok b, s') ∧ s'.cache = s.cache ∧ s.k ≤ s'.k ∧
       (FnfSafe c s.k p → b = true ∨ pst c s'.k p = .gone) := by
   obtain ⟨r1, s1, h1, hk1, hc1, hr1⟩ :=
@@ -575,7 +586,7 @@ theorem isZombie_run (r : Bool) (p : Nat) (c : Ctx) (s : St) (ha : Adm c) :
       | gone => exact absurd hp hng1
 
 /-- `_raise_if_zombie` raises nothing but ZombieProcess(p) -/
-theorem raiseIfZombie_run (r : Bool) (p : Nat) (c : Ctx) (s : St) (ha : Adm c) :
+theorem raiseIfZombie_run (r : Host) (p : Nat) (c : Ctx) (s : St) (ha : Adm c) :
     ∃ res s', raiseIfZombie (goodCfg r) p c s = (res, s') ∧ s'.cache = s.cache ∧ s.k ≤ s'.k ∧
       (res = .ok () ∨ res = .error (.zombie p)) ∧
       (FnfSafe c s.k p → res = .error (.zombie p) ∨ pst c s'.k p = .gone) := by
@@ -590,7 +601,7 @@ theorem raiseIfZombie_run (r : Bool) (p : Nat) (c : Ctx) (s : St) (ha : Adm c) :
     · cases h
     · exact h
 
-theorem tri_raiseIfZombie {E : Ctx → Nat → PyExc → Prop} (r : Bool) (p : Nat)
+theorem tri_raiseIfZombie {E : Ctx → Nat → PyExc → Prop} (r : Host) (p : Nat)
     (hE : ∀ c k, E c k (.zombie p)) : Tri E (raiseIfZombie (goodCfg r) p) (fun _ => True) := by
   intro c s ha hi
   obtain ⟨res, s', h, hc, _, hres, _⟩ := raiseIfZombie_run r p c s ha
@@ -622,12 +633,12 @@ theorem pathExists_gone (p : Nat) (path : Path) (hp : path.owner = some p) (c : 
 
 /-! ## `wrap_exceptions` -/
 
-theorem wrapSteps_ple (r : Bool) (p : Nat) (α : Type) :
+theorem wrapSteps_ple (r : Host) (p : Nat) (α : Type) :
     (wrapSteps (goodCfg r) p .ple ["_raise_if_zombie", "raise NoSuchProcess"] : M α) =
       (raiseIfZombie (goodCfg r) p >>= fun _ => throw (.nsp p)) := by
   simp [wrapSteps]
 
-theorem wrapSteps_fnf (r : Bool) (p : Nat) (α : Type) :
+theorem wrapSteps_fnf (r : Host) (p : Nat) (α : Type) :
     (wrapSteps (goodCfg r) p .fnf
         ["_raise_if_zombie", "if not exists(stat): raise NoSuchProcess", "raise"] : M α) =
       (raiseIfZombie (goodCfg r) p >>= fun _ =>
@@ -637,7 +648,7 @@ theorem wrapSteps_fnf (r : Bool) (p : Nat) (α : Type) :
 /-- **wrap_safe**: a body that raises only what `ExcOK p` allows comes out of
     `@wrap_exceptions` raising only NoSuchProcess / ZombieProcess / AccessDenied for `p`.
     In particular the bare `raise` at the end of the FileNotFoundError clause is not reached. -/
-theorem wrap_safe (r : Bool) (p : Nat) {α : Type} {body : M α} {Q : α → Prop}
+theorem wrap_safe (r : Host) (p : Nat) {α : Type} {body : M α} {Q : α → Prop}
     (hb : Tri (ExcOK p) body Q) : Tri (PsOnly p) (wrapExceptions (goodCfg r) p body) Q := by
   intro c s ha hi
   have h1 := hb c s ha hi
@@ -703,13 +714,13 @@ theorem wrap_safe (r : Bool) (p : Nat) {α : Type} {body : M α} {Q : α → Pro
     | notImplemented => exact absurd h1.1 (by simp [ExcOK])
 
 /-- a decorated `_pslinux.Process` method -/
-theorem W_safe (r : Bool) (name : String) (p : Nat) {α : Type} {body : M α} {Q : α → Prop}
+theorem W_safe (r : Host) (name : String) (p : Nat) {α : Type} {body : M α} {Q : α → Prop}
     (hw : (goodCfg r).wrapped.contains name = true)
     (hb : Tri (ExcOK p) body Q) : Tri (PsOnly p) (W (goodCfg r) name p body) Q := by
   unfold W; rw [if_pos hw]; exact wrap_safe r p hb
 
 /-- an undecorated helper keeps its body's contract -/
-theorem W_plain (r : Bool) (name : String) (p : Nat) {α : Type} {body : M α} {Q : α → Prop}
+theorem W_plain (r : Host) (name : String) (p : Nat) {α : Type} {body : M α} {Q : α → Prop}
     {E : Ctx → Nat → PyExc → Prop}
     (hw : (goodCfg r).wrapped.contains name = false)
     (hb : Tri E body Q) : Tri E (W (goodCfg r) name p body) Q := by
